@@ -350,6 +350,10 @@ func (d *dagStoreImpl) Rename(oldID, newID string) error {
 	if err != nil {
 		return err
 	}
+	// os.Rename replaces an existing file: never rename onto another DAG.
+	if newLoc != oldLoc && exists(newLoc) {
+		return fmt.Errorf("%w: %s", errDAGFileAlreadyExists, newLoc)
+	}
 	return os.Rename(oldLoc, newLoc)
 }
 
